@@ -171,6 +171,12 @@ void h_prod(void) {
   svp_apply_dft(mod, (VEC_ZNX_DFT*)dft, RSZ, (SVP_PPOL*)pp, a, ASZ, ASL);
 #ifdef TMPA
   vec_znx_idft_tmp_a(mod, (VEC_ZNX_BIG*)res, RSZ, (VEC_ZNX_DFT*)dft, RSZ);
+#elif defined(IDFT_INPLACE)
+  /* the inverse DFT writing over its own input (supported for FFT64: a DFT limb and a big limb have the same size): the result is read from the DFT buffer */
+  uint8_t* tmp = (uint8_t*)tbuf(vec_znx_idft_tmp_bytes(mod));
+  res = (int64_t*)dft;
+  g_res_base = res;
+  vec_znx_idft(mod, (VEC_ZNX_BIG*)dft, RSZ, (VEC_ZNX_DFT*)dft, RSZ, tmp);
 #else
   uint8_t* tmp = (uint8_t*)tbuf(vec_znx_idft_tmp_bytes(mod));
   vec_znx_idft(mod, (VEC_ZNX_BIG*)res, RSZ, (VEC_ZNX_DFT*)dft, RSZ, tmp);
